@@ -396,6 +396,11 @@ def has_bounds(ty):
     return False
 
 
+def nan_bound(ty):
+    b = ty[1:3] if ty[0] in ("int", "float") else ty[4:6] if ty[0] in ("ints", "floats") else []
+    return any(x is not None and "nan" in x for x in b)
+
+
 F6_WITNESS = [["float", "0", "3", True], "nan", "v"]
 
 
@@ -480,12 +485,12 @@ class FromWords(Stream):
                         yield [ty, tx, "v"]
             nrand = 3000
         else:
-            stride = 2
+            stride = 12
             for ti, ty in enumerate(grid):
                 for xi, tx in enumerate(texts):
                     if (xi + ti) % stride == 0:
                         yield [ty, tx, "v"]
-            nrand = 120000
+            nrand = 80000
         ip, ib, fp_, il = (["int", None, None, True], ["int", None, "3", True], ["float", None, None, True],
                            ["ints", None, None, None, "0", None, False, False])
         big = [("1" * 4300, ip), ("1" * 4301, ip), ("1" * 4301, il), ("10**4299", ip), ("10**4299", ib), ("10**4299", fp_),
@@ -629,6 +634,10 @@ class FromWords(Stream):
         ty, text, mode = case
         if mode == "w" and not text.strip():
             return False  # the parser never hands an empty word list to a converter
+        if nan_bound(ty):
+            # value_min=nan / value_max=nan declares no domain at all (nothing is >= nan); the theorems carry the
+            # same escape (disjunct b = NNaN of ge_lo / le_hi).  Still compared against the model.
+            return False
         # finding F6-nan (NaN passes value_min/value_max): excluded until it is listed in known_findings.json;
         # once listed, the corpus witness reports it on every run
         if ty[0] in ("float", "floats") and has_bounds(ty) and nan_risk(text):
